@@ -297,6 +297,14 @@ func ruleHNSWOrder(r *Run, p string) {
 		ok := false
 		allInstrs(fn, func(in ssa.Instruction) {
 			if mk, ok2 := in.(*ssa.MakeSlice); ok2 && types.TypeString(mk.Type(), nil) == "[]uint32" {
+				if call, isCall := mk.Len.(*ssa.Call); isCall {
+					if b, isB := call.Call.Value.(*ssa.Builtin); isB && b.Name() == "min" && len(call.Call.Args) == 2 {
+						s0, s1 := c.S(call.Call.Args[0]), c.S(call.Call.Args[1])
+						if (s0 == "P3" && strings.HasPrefix(s1, "len(")) || (s1 == "P3" && strings.HasPrefix(s0, "len(")) {
+							ok = true
+						}
+					}
+				}
 				if ph, isPhi := mk.Len.(*ssa.Phi); isPhi {
 					var hasM, hasLen bool
 					for _, e := range ph.Edges {
